@@ -74,4 +74,17 @@ def checkStar (θ : Nat) (ps : List Pair) (gs : List (List Nat)) : Bool :=
 def checkKCore (θ k : Nat) (ps : List Pair) (gs : List (List Nat)) : Bool :=
   gs.all (fun g => g.all (fun u => decide (k ≤ degIn θ ps g u)))
 
+/-- the members of a group form ONE component of the link graph restricted to the group: every member is reached from the first one
+through pairs at or above θ between members ("all members are linked by reported pairs at or above the grouping threshold") -/
+def groupLinked (n θ : Nat) (ps : List Pair) (g : List Nat) : Bool :=
+  match g with
+  | [] => false
+  | h :: _ =>
+    match reachSet (linkGraph n θ ps (fun u => g.contains u)) h with
+    | some S => g.all (fun v => S.contains v)
+    | none => false
+
+/-- contract of every mode, used as the whole contract of the centroid mode -/
+def checkLinked (n θ : Nat) (ps : List Pair) (gs : List (List Nat)) : Bool := gs.all (groupLinked n θ ps)
+
 end PV.Grouping
